@@ -70,6 +70,16 @@ def to_open_api_3_0(schema: JsonSchema) -> Dict[str, Any]:
             )
         else:
             result["type"] = result["type"][0]
+    # OpenAPI 3.0 exclusive bounds are boolean modifiers of minimum/maximum
+    for bound, exclusive, stricter in (
+        ("minimum", "exclusiveMinimum", max),
+        ("maximum", "exclusiveMaximum", min),
+    ):
+        if exclusive in result and not isinstance(result[exclusive], bool):
+            value = result.pop(exclusive)
+            if bound not in result or stricter(result[bound], value) == value:
+                result[bound] = value
+                result[exclusive] = True
     if "examples" in result:
         result.setdefault("example", result.pop("examples")[0])
     if "const" in result:
